@@ -10,7 +10,7 @@ use std::sync::atomic::{AtomicBool, AtomicU64, Ordering};
 use std::sync::{Arc, Mutex};
 use std::time::{Duration, Instant};
 
-use proptest::strategy::{BoxedStrategy, Strategy, ValueTree};
+use proptest::strategy::BoxedStrategy;
 use proptest::test_runner::{
 	Config, RngAlgorithm, RngSeed, TestCaseError, TestError, TestRng, TestRunner,
 };
@@ -376,6 +376,11 @@ fn judge<P: Prop>(case: &P::Case, cx: &mut Ctx, known: &HashSet<String>) -> Verd
 	match res {
 		Ok(()) => Verdict::Pass,
 		Err(f) => {
+			if f.sig == "harness" {
+				// an internal consistency check of the harness itself failed: never a verdict
+				println!("INCONCLUSIVE property={} harness self-consistency failure (exit 2): {}", P::ID, f.msg);
+				std::process::exit(2);
+			}
 			if known.contains(&f.sig) {
 				Verdict::Known(f.sig)
 			} else {
@@ -931,23 +936,11 @@ fn write_minimal_evidence<P: Prop>(tier: Tier, seed: u64, violations: u64) {
 	let _ = std::fs::write(evdir.join(format!("{}.json", P::ID)), serde_json::to_string_pretty(&evidence).unwrap());
 }
 
-/// Build one case from fuzzer bytes using the same strategy (proptest's
-/// pass-through RNG), then judge it. Returns the failure if it is not a known one.
-pub fn fuzz_one<P: Prop>(strategy: &BoxedStrategy<P::Case>, data: &[u8], known: &HashSet<String>) -> Option<(P::Case, Failure)> {
-	if data.is_empty() {
-		return None;
-	}
-	let cfg = Config { failure_persistence: None, ..Config::default() };
-	let rng = TestRng::from_seed(RngAlgorithm::PassThrough, data);
-	let mut runner = TestRunner::new_with_rng(cfg, rng);
-	let tree = match strategy.new_tree(&mut runner) {
-		Ok(t) => t,
-		Err(_) => return None,
-	};
-	let case = tree.current();
+/// Judges one decoded fuzz case; returns the failure unless it is a listed known finding.
+pub fn judge_for_fuzz<P: Prop>(case: &P::Case, known: &HashSet<String>) -> Option<Failure> {
 	let mut cx = Ctx::default();
-	match judge::<P>(&case, &mut cx, known) {
-		Verdict::Fail(f) => Some((case, f)),
+	match judge::<P>(case, &mut cx, known) {
+		Verdict::Fail(f) => Some(f),
 		_ => None,
 	}
 }
